@@ -244,14 +244,48 @@ pub fn run(ctx: &Ctx) -> Report {
     });
     st = st.merge(st_f);
 
+    // (g) histories: every ordered pair of (path, mode) symbols back to back on one thread, over related paths:
+    //     prefixes / extensions, escape-case and separator variants, long paths with a long common prefix
+    let hist_paths: Vec<String> = {
+        let long = format!("/{}", "s".repeat(90));
+        let deep: String = (0..30).map(|i| format!("/d{:02}", i)).collect();
+        let mut v: Vec<String> = ["/", "/a", "/a/", "/a/b", "/a//b", "/a/./b", "/a/../b", "/a/b/..", "/A", "/a%2fb", "/a%2Fb", "/%61", "/a%20b", "/a+b", "/a b", "/a%zz", "/a%", "/..", "/a/b/../../..", "*", ""]
+            .iter()
+            .map(|x| x.to_string())
+            .collect();
+        for tail in ["", "/", "/x", "/y", "/.", "/..", "//", "/%zz", "/../.."] {
+            v.push(format!("{}{}", long, tail));
+            v.push(format!("{}{}", deep, tail));
+        }
+        v
+    };
+    let nh = hist_paths.len() as u64 * 2;
+    let off_g = total_a + n_b + n_f;
+    let st_g = par_sweep(nh * nh, |i, st| {
+        let sym = |k: u64| (&hist_paths[(k / 2) as usize], k % 2 == 1);
+        let (x, y) = (sym(i / nh), sym(i % nh));
+        for (step, (path, s3)) in [x, y].into_iter().enumerate() {
+            let before = st.violations.len();
+            let label = eval(off_g + i, path, s3, st);
+            st.outcome(&format!("history:{}:{}", if s3 { "s3" } else { "std" }, label));
+            if step == 1 && st.violations.len() > before {
+                if let Some(v) = st.violations.last_mut() {
+                    v.case["preceded_by"] = json!({"path": x.0, "s3": x.1});
+                    v.what = format!("{} (right after another path on the same thread)", v.what);
+                }
+            }
+        }
+    });
+    st = st.merge(st_g);
+
     // (e) end to end: reference-signed requests over the path alphabet are accepted
-    let st_e = super::e2e_paths::run(ctx, total_a + n_b + n_f);
+    let st_e = super::e2e_paths::run(ctx, total_a + n_b + n_f + nh * nh);
     st = st.merge(st_e);
 
     Report {
         stats: st,
         rule: format!(
-            "all paths of 0..={} segments over the {}-symbol alphabet {:?} x trailing slash x {{standard,S3}}; every ASCII byte literal (3 contexts), every 2-byte UTF-8 char literal, every %XX in 4 hex-case spellings, every two-character escape %c1c2 over ASCII^2 (2 contexts), '%' followed by every pair over 10 units incl. 2/3/4-byte characters, 40 special paths; every path of <= {} segments behind a first segment padded to {} lengths (0..5000 bytes, every length 56..70 and 1020..1026) canonicalised in both modes back to back on one thread, in both orders; plus end-to-end signing of all <=3-segment paths. states = distinct (mode, reference normal form | error class); non-trivial = input differs from its normal form or is refused",
+            "all paths of 0..={} segments over the {}-symbol alphabet {:?} x trailing slash x {{standard,S3}}; every ASCII byte literal (3 contexts), every 2-byte UTF-8 char literal, every %XX in 4 hex-case spellings, every two-character escape %c1c2 over ASCII^2 (2 contexts), '%' followed by every pair over 10 units incl. 2/3/4-byte characters, 40 special paths; every path of <= {} segments behind a first segment padded to {} lengths (0..5000 bytes, every length 56..70 and 1020..1026) canonicalised in both modes back to back on one thread, in both orders; every ordered pair over 78 (path, mode) symbols of related paths (prefixes / extensions, escape-case and separator variants, 90-byte and 30-segment paths differing only at the end) back to back on one thread; plus end-to-end signing of all <=3-segment paths. states = distinct (mode, reference normal form | error class); non-trivial = input differs from its normal form or is refused",
             max_segs, SEGMENTS.len(), SEGMENTS, short_segs, pad_lens.len()
         ),
         bounds: json!({"max_segments": max_segs, "alphabet": SEGMENTS.len(), "modes": 2}),
